@@ -118,6 +118,21 @@ mod verif_replay_s {
             if reqs != 1 { println!("S|posts|connection closed before the response, credentials {}|{reqs} requests reached the server", creds.is_some()); }
             if r.is_ok() { println!("S|value-for-failed-exchange|connection closed before the response|returned Ok"); }
         }
+        // a request whose serialization is longer in bytes than in characters: the posted body must still be the whole serialization
+        {
+            n += 1;
+            let req = Ping { text: "p\u{e4}\u{20ac}\u{1f600}".into() };
+            let want = yaserde::ser::to_string(&req).unwrap();
+            let (addr, seen, h, stop) = serve(vec![Some((200, good.clone())), Some((200, good.clone()))]);
+            let client = reqwest::Client::new();
+            let r: SoapResult<Pong> = rt.block_on(super::helpers_content::send_for_verif(&client, &addr, None::<(&str, &str)>, req));
+            stop.store(true, std::sync::atomic::Ordering::SeqCst);
+            h.join().unwrap();
+            let reqs = seen.lock().unwrap().clone();
+            if reqs.len() != 1 { println!("S|posts|non-ASCII request|{} requests reached the server", reqs.len()); }
+            else if !reqs[0].ends_with(&want) { println!("S|body|non-ASCII request|body is not the serialized envelope (got {} bytes after the headers, want {})", reqs[0].split("\r\n\r\n").nth(1).map(|b| b.len()).unwrap_or(0), want.len()); }
+            if let Err(e) = &r { println!("S|error-for-good-exchange|non-ASCII request|returned Err({e})"); }
+        }
         // transport failures: connection closed after the headers, before the announced end of the body (the part that did arrive
         // may even be a complete envelope)
         for (bname, body) in [("complete envelope, then closed early", good.clone()), ("half an envelope, then closed", good[..good.len() / 2].to_string()), ("headers only, then closed", String::new())] {
